@@ -98,7 +98,7 @@ def coq_ops(ops: list) -> str:
 def coq_obs(steps: list) -> str:
     out = []
     for oc, counts in steps:
-        o = "Ok" if oc == "ok" else ("Rejected" if oc.startswith("rejected") else "Fault")
+        o = "Ok" if oc == "ok" else ("Rejected" if oc.startswith("rejected") else "Fault")  # "error:*" -> Fault
         out.append(f"({o}, [{';'.join(str(c) for c in counts)}])")
     return "[" + "; ".join(out) + "]"
 
